@@ -22,7 +22,7 @@
    handed to _send_user_message -- AFTER the lock has been released, exactly as
    the Python code does.  The wire trace is the order of _send_user_message calls. *)
 From Coq Require Import ZArith List Bool.
-From PV Require Import Bytes Sched.
+From PV Require Import Bytes Sched C22_gen.
 Import ListNotations.
 Open Scope Z_scope.
 
@@ -144,7 +144,7 @@ Definition close_internal (s : st) : st * list msg :=
 Definition mk_data (ext : bool) (n : Z) : msg := if ext then MExt n else MData n.
 Definition reserve (ext : bool) (n : Z) (s : st) : out :=
   let size1 := if out_win s <? n then out_win s else n in
-  let size := if max_pkt s - 64 <? size1 then max_pkt s - 64 else size1 in
+  let size := if max_pkt s - pkt_overhead <? size1 then max_pkt s - pkt_overhead else size1 in
   let s' := set_out_win s (out_win s - size) in
   if size =? 0 then mkO s' [] [] (r_ok 0)
   else mkO s' [mk_data ext size] [] (r_ok size).
@@ -302,12 +302,16 @@ Definition is_send_op (o : op) : bool :=
 (* ---- executable interface for the correspondence run ----------------------- *)
 Definition enc_msg (m : msg) : list Z :=
   match m with
-  | MEof => [96; 0] | MClose => [97; 0] | MData n => [94; n] | MExt n => [95; n] | MWa n => [93; n]
+  (* message numbers, packet overhead, threshold divisor and the extended-data code come from
+     Gen/C22_gen.v, regenerated from the source on every run *)
+  | MEof => [msg_eof; 0; 0] | MClose => [msg_close; 0; 0] | MData n => [msg_data; n; 0]
+  | MExt n => [msg_extended_data; n; ext_stderr_code] | MWa n => [msg_window_adjust; n; 0]
   end.
 Definition b2z (b : bool) : Z := if b then 1 else 0.
 
-Definition mk_init (act blk : bool) (w p buf thresh : Z) : st :=
-  mkSt act false false false true false w p buf 0 thresh blk 0 false false.
+(* [inwin] is the window passed to Channel._set_window: threshold = inwin // threshold_div *)
+Definition mk_init (act blk : bool) (w p buf inwin : Z) : st :=
+  mkSt act false false false true false w p buf 0 (inwin / threshold_div) blk 0 false false.
 
 Definition enc_cfg (c : cfg) : list Z :=
   concat (map enc_msg (wire c)) ++ [-1]
@@ -316,7 +320,7 @@ Definition enc_cfg (c : cfg) : list Z :=
       out_win (sh c); inbuf (sh c); in_sofar (sh c);
       Z.of_nat (length (pending c)); Z.of_nat (length (concat (map ops (thr c))))].
 
-(* input: ((active, blocking, out_window, max_packet, in-buffer bytes, in threshold), programs, schedule) *)
+(* input: ((active, blocking, out_window, max_packet, in-buffer bytes, in window), programs, schedule) *)
 Definition run_case (x : (bool * bool * Z * Z * Z * Z) * list (list op) * list Z) : list Z :=
   let '((act, blk, w, p, buf, th), progs, sched) := x in
   match crun (init_cfg (mk_init act blk w p buf th) progs)
@@ -395,6 +399,6 @@ Definition run_any (i : cinput) : list Z :=
    send reserves under the lock, close runs completely, then send emits *)
 Definition witness_progs : list (list op) := [[OSend 5]; [OClose]].
 Definition witness_sched : list nat := [0; 1; 1; 1; 0]%nat.
-Definition witness_init : st := mk_init true false 100 1000 0 10.
+Definition witness_init : st := mk_init true false 100 1000 0 100.
 (* a blocked writer: zero window, timeout None *)
-Definition blocked_init : st := mk_init true true 0 1000 0 10.
+Definition blocked_init : st := mk_init true true 0 1000 0 100.
